@@ -137,7 +137,7 @@ def run(ctx: Ctx) -> None:
     for i in range(N):
         # every extended construct at least once per run: two of them are forced into each program, in turn
         forced = [progen.EXT_KINDS[(2 * i + k) % len(progen.EXT_KINDS)] for k in range(2)]
-        p = progen.gen_program(rnd, rnd.randint(1, 3), dict(ext=True, force_ext=forced))
+        p = progen.gen_program(rnd, rnd.randint(1, 3), dict(ext=True, force_ext=forced, force_subclass=(i % 5 == 0)))      # every fifth program: a class hierarchy three levels deep
         ext_used = any(k.startswith('ext_') for k in p.constructs)
         ctx.case(p.src, ext_used)
         for k in p.constructs:
